@@ -40,10 +40,16 @@ func (s *unlimitedSchedule) Next() (tx time.Time, ok bool) {
 		s.finish.Store(time.Now().Add(s.duration))
 	})
 	now := time.Now()
-	if now.Before(s.finish.Load()) {
-		return now, true
+	finish := s.finish.Load()
+	if !now.Before(finish) {
+		return finish, false
 	}
-	return s.finish.Load(), false
+	// A composite starts a part in advance, at the finish time of the previous one.
+	// No operation before the start time, so that returned times never go back.
+	if start := finish.Add(-s.duration); now.Before(start) {
+		return start, true
+	}
+	return now, true
 }
 
 func (s *unlimitedSchedule) Left() int {
